@@ -10,6 +10,10 @@ for d in sorted(glob.glob("/verif/seeded/*/")):
     r = json.load(open(d + "result.json")) if os.path.exists(d + "result.json") else {}
     rows.append((m, r))
 n = len(rows)
+try:
+    rerun = set(open("/verif/notes/regression-final-ids.txt").read().split()) & {m["id"] for m, r in rows}
+except OSError:
+    rerun = set()
 missed = [m for m, r in rows if m.get("note", "").startswith("missed at first") or m.get("note", "").startswith("missed by")]
 undetected = [m["id"] for m, r in rows if not r.get("detected_by")]
 table = subprocess.run(["python3", "/verif/vf/seedtable.py"], capture_output=True, text=True).stdout
@@ -46,7 +50,11 @@ check was strengthened (per round, missed at first: 3 of 19, 8 of 16, 6 of 12, 9
 coverage gate and the pinned inventories in place — of the 12 round-10 misses those two mechanisms alone report 6).
 Every miss was a gap in a generator (an input class nobody generated) or in a judge (a difference computed but
 attributed to another property only); **no miss was a wrong theorem, and no strengthening loosened anything**.
-After each round all kept changes were re-run (`vf/seedtest.py` over `seeded/*`, last over all {n} after round 11){"" if not undetected else "; not reported in that run: " + ", ".join(undetected)}.
+After each round the kept changes were re-run (`vf/seedtest.py` over `seeded/*`); after round 11, with the machinery as
+committed at the end (plain-build verdicts, statement-based coverage gate, per-file pins), {len(rerun)} of the {n} were re-run — the
+76 changes of rounds 10 and 11, and as many of the older ones as the remaining time allowed, in random order
+(`notes/regression-final-ids.txt`) — and all of those are reported; the other {n - len(rerun)} carry the result of the
+regression after round 9 (every generator change since then only adds inputs){"" if not undetected else "; not reported: " + ", ".join(undetected)}.
 How a change is reported: most by a judged violation class with a counterexample replay; table- or shape-changing ones
 also (or only) by a proof obligation over the regenerated definitions or pinned tables (Tie A: `theorems=k/N`, e.g.
 C18-d's package variable, C14-h's second receive on the upload channel, C14-p's new `s[0]`); some by a correspondence
